@@ -215,9 +215,9 @@ func runC07(r *core.Run) {
 			case 0:
 				name, call = "verify.Endorsement", func() { verify.Endorsement(e, &verify.Options{RootsOfTrust: roots, Now: now}) }
 			case 1:
-				name, call = "closure", func() {
-					verify.SNPValidateFunc(&verify.Options{RootsOfTrust: roots, Now: now})(SnpAttestation(meas, nil), e)
-				}
+				// (one validator for both calls of the entry point: a validator is made to be kept)
+				f := verify.SNPValidateFunc(&verify.Options{RootsOfTrust: roots, Now: now})
+				name, call = "closure", func() { f(SnpAttestation(meas, nil), e) }
 			case 2:
 				name, call = "SevValidate/extras", func() {
 					gcetcbendorsement.SevValidate(ctx, SnpAttestation(meas, e), &gcetcbendorsement.SevValidateOptions{RootsOfTrust: roots, Now: now})
@@ -366,6 +366,19 @@ func runC07(r *core.Run) {
 			}
 		case 6: // event log as a stream and as a file
 			l, o := corruptN(r, logBytes, spBytes, "event-log")
+			if r.Chance(12, "digest-bank?") {
+				// a genuine log followed by an event, written byte by byte, whose digest is tagged with a
+				// TPM algorithm id the tools may or may not know (other banks exist: SHA-512, SM3, SHA-3),
+				// whole or cut right after the id
+				alg := []uint16{0x0004, 0x000B, 0x000C, 0x000D, 0x0012, 0x0027, 0x0028, 0x0029, 0xffff}[r.Intn(9, "digest-alg")]
+				size := map[uint16]int{0x0004: 20, 0x000B: 32, 0x000C: 48, 0x000D: 64, 0x0012: 32, 0x0027: 32, 0x0028: 48, 0x0029: 64, 0xffff: 16}[alg]
+				rec := []byte{7, 0, 0, 0, 1, 0, 0, 0x80, 1, 0, 0, 0, byte(alg), byte(alg >> 8)}
+				if !r.Bool("cut-after-alg-id") {
+					rec = append(rec, bytes.Repeat([]byte{0x5c}, size)...)
+					rec = append(rec, 4, 0, 0, 0, 'd', 'a', 't', 'a')
+				}
+				l, o = append(append([]byte(nil), logBytes...), rec...), fmt.Sprintf("field:event-digest-alg=%#04x", alg)
+			}
 			if r.Chance(15, "signature-only-event?") {
 				// a genuine log followed by an event whose data is a well-known TCG event signature
 				// and nothing (or next to nothing) else
